@@ -172,6 +172,34 @@ def two_instances(out):
     return 2 << 12
 
 
+def wrap_alignment(cls, out):
+    """The id stream must pass through all 2^24 counter values: with a constant random source the ids
+    issued from counter W-k (k = 1..4) must reach the id of counter 0 after exactly k issues, and never before."""
+    n = 0
+    for k in (1, 2, 3, 4):
+        srv = _make_server(cls)
+        if not hasattr(srv, 'sequence_number'):
+            return 0
+        src = Source('zero')
+        orig = (secrets.token_bytes, os.urandom)
+        secrets.token_bytes = src.token_bytes
+        os.urandom = src.urandom
+        try:
+            src.got = []
+            srv.sequence_number = 0
+            first = [srv.generate_id() for _ in range(3)]
+            srv.sequence_number = WRAP - k
+            run = [srv.generate_id() for _ in range(k + 3)]
+            n += k + 6
+            if run[k:k + 3] != first or any(x in first for x in run[:k]) or len(set(run)) != len(run):
+                out.append(_viol('counter_period_short', cls, 'zero', WRAP - k, k,
+                                 'ids from counter 2^24-%d: %r; ids from counter 0: %r - the stream does not pass through all 2^24 counter '
+                                 'values, so two ids less than 2^24 issues apart coincide when the random source repeats' % (k, run, first)))
+        finally:
+            secrets.token_bytes, os.urandom = orig
+    return n
+
+
 def run(ctx):
     rep = report.Report('C17', 'exploration')
     jobs = []
@@ -222,6 +250,8 @@ def run(ctx):
                 rep.add(report.Violation.from_json(v))
     out = []
     issued += two_instances(out)
+    for cls in ('sync', 'async'):
+        issued += wrap_alignment(cls, out)
     for v in out:
         rep.add(v)
     if skipped:
@@ -231,7 +261,7 @@ def run(ctx):
         'distinct_nontrivial': windows,
         'rule': 'windows of consecutively issued ids from the real generate_id() of Server and AsyncServer, '
                 'with secrets.token_bytes / os.urandom replaced by adversarial sources {all-zero, all-ff, '
-                'base64-special pattern, period-2, counter-cancelling}; starts %s (quick: windows of 2^18 centred on '
+                'base64-special pattern, period-2, counter-cancelling}; a wrap-alignment test (ids from counter 2^24-k reach the id of counter 0 after exactly k issues); starts %s (quick: windows of 2^18 centred on '
                 'them plus 512-id windows at every 8th value of each counter byte; thorough: full 2^24 windows). '
                 'distinct_nontrivial counts windows (source x start x server class).' % [hex(s) for s in starts],
         'samples': [{'server': 'sync', 'source': 'zero', 'start': '0xfe0000', 'count': 1 << 18},
